@@ -386,3 +386,99 @@ theorem through_lands (rel : T → T → Option (Rel T D S)) (contains : T → D
     simpa [List.getLast_cons] using this
 
 end V
+
+namespace V
+variable {T D : Type}
+
+/-! ### from the full engine to the pure engine: a traversal that returned normally is the pure
+traversal of the "purified" graph (a guard that raised counts as rejecting — but since the full
+traversal did not raise, no such guard was evaluated on the way) -/
+
+def purifyRel (r : Rel T D Unit) : PRel T D :=
+  { src := r.src, dst := r.dst, inferential := r.inferential,
+    guard := fun x => match r.guard x () with | .ok (b, _) => b | .error _ => false,
+    xform := fun x => match r.xform x () with | .ok (y, _) => y | .error _ => x }
+
+def purify (g : Graph T D Unit) : T → List (PRel T D) := fun n => (g.succ n).map purifyRel
+
+theorem firstAccept_ok_pure (rs : List (Rel T D Unit)) (x : D) (o : Option (Rel T D Unit))
+    (h : firstAccept rs x () = .ok (o, ())) : pfirst (rs.map purifyRel) x = o.map purifyRel := by
+  induction rs with
+  | nil => simp only [firstAccept, Except.ok.injEq, Prod.mk.injEq] at h; rw [← h.1]; rfl
+  | cons r rs ih =>
+    simp only [firstAccept] at h
+    simp only [List.map_cons, pfirst, List.find?_cons]
+    cases hg : r.guard x () with
+    | error e => rw [hg] at h; cases h
+    | ok v =>
+      obtain ⟨b, u⟩ := v
+      rw [hg] at h
+      have hgp : (purifyRel r).guard x = b := by simp [purifyRel, hg]
+      cases b with
+      | true =>
+        simp only [Except.ok.injEq, Prod.mk.injEq] at h
+        rw [← h.1]; simp [hgp]
+      | false =>
+        simp only [hgp]
+        exact ih h
+
+theorem traverse_ok_pure (g : Graph T D Unit) :
+    ∀ f n x acc d p, traverse g f n x () acc = .ok (d, p, ()) →
+      ∃ q, p = acc ++ q ∧ ptraverse (purify g) f n x = (d, q) := by
+  intro f
+  induction f with
+  | zero => intro n x acc d p h; simp [traverse] at h
+  | succ f ih =>
+    intro n x acc d p h
+    simp only [traverse] at h
+    cases hfa : firstAccept (g.succ n) x () with
+    | error e => rw [hfa] at h; cases h
+    | ok v =>
+      obtain ⟨o, u⟩ := v
+      rw [hfa] at h
+      have hp := firstAccept_ok_pure (g.succ n) x o hfa
+      simp only [ptraverse, purify]
+      cases o with
+      | none =>
+        simp only [Except.ok.injEq, Prod.mk.injEq] at h
+        obtain ⟨rfl, rfl, _⟩ := h
+        rw [hp]
+        exact ⟨[n], rfl, rfl⟩
+      | some r =>
+        simp only at h
+        cases hx : r.xform x () with
+        | error e => rw [hx] at h; cases h
+        | ok w =>
+          obtain ⟨x', u'⟩ := w
+          rw [hx] at h
+          obtain ⟨q, hq, hpt⟩ := ih r.dst x' (acc ++ [n]) d p h
+          rw [hp]
+          have hxp : (purifyRel r).xform x = x' := by simp [purifyRel, hx]
+          refine ⟨n :: q, by rw [hq]; simp, ?_⟩
+          simp only [Option.map_some]
+          have e1 : (purifyRel r).dst = r.dst := rfl
+          rw [hxp, e1]
+          rw [hpt]
+
+/-- pairwise exclusivity of accepting relations with distinct targets bounds the accepting set by one -/
+theorem filter_le_one_of_pairwise {α β : Type} [DecidableEq β] (l : List α) (p : α → Bool) (key : α → β)
+    (hnd : (l.map key).Nodup) (h : ∀ a ∈ l, ∀ b ∈ l, p a = true → p b = true → key a = key b) :
+    (l.filter p).length ≤ 1 := by
+  induction l with
+  | nil => simp
+  | cons a l ih =>
+    rw [List.map_cons, List.nodup_cons] at hnd
+    obtain ⟨hna, hnl⟩ := hnd
+    simp only [List.filter_cons]
+    by_cases hpa : p a = true
+    · simp only [hpa, if_true, List.length_cons]
+      have : l.filter p = [] := by
+        rw [List.filter_eq_nil_iff]
+        intro b hb hpb
+        have := h a List.mem_cons_self b (List.mem_cons_of_mem _ hb) hpa hpb
+        exact hna (by rw [this]; exact List.mem_map_of_mem hb)
+      simp [this]
+    · simp only [hpa, Bool.false_eq_true, if_false]
+      exact ih hnl (fun x hx y hy => h x (List.mem_cons_of_mem _ hx) y (List.mem_cons_of_mem _ hy))
+
+end V
